@@ -198,7 +198,7 @@ def rgfa(draw, min_chroms=1, max_chroms=2, max_elements=5, max_ln=9, min_element
     start = draw(st.sampled_from([0, 0, 6, 95, 996]))
     # segment names are arbitrary non-blank strings: also ids with '.', '-' and '#'
     b = _Builder(draw, rnd, [draw(st.sampled_from(["s", "s", "s", ""])),  # "" = purely numeric ids, as vg / odgi / pggb write them
-                             draw(st.sampled_from(["utg", "n", "s0", "s1.", "ctg-", "n#"]))], start, max_ln)
+                             draw(st.sampled_from(["utg", "n", "s0", "s1.", "ctg-", "n#", "b"]))], start, max_ln)
     b.cycles = cycles
     nchrom = draw(st.integers(min_chroms, max_chroms))
     names = draw(st.permutations(["chr1", "chr2", "chrX", "chr10_alt"]))[:nchrom]
